@@ -43,6 +43,11 @@ CHECKS = {
          "For every history (every prefix is a history of its own) all of IsExist/IsFile/IsDir/ReadFile/Reader/ReadDir/Lstat on 18 overlapping paths, on the cache and on child views of it, must answer like the overlay model (remote + pending successful operations). The cache's missing tombstones are recorded as known findings by root cause (trigger must be present in the history for the very path), everything else is reported.",
          "Overlay model as in C06; the root-cause matchers are predicates over the history, not over the symptom alone.",
          "DESIGN.md 3/C07"),
+ "C10": ("exploration",
+         "exhaustive enumeration of bounded programs (ordered definition calls x request sequences) executed on the real provider and on a reference interpreter, compared request by request",
+         "Every ordered sequence of <=2-4 definition calls over 3 names (explicit and default slot per name; factory shapes const/fail/nil/requires X/tolerates X/injects X/injects ?X for every target incl. self, so every cyclic graph on <=3 names occurs) is followed by every sequence of <=1-3 requests (Get, InjectTo with required and optional tags, Keys, late definitions). Outcome class, instance identity, invocation counters and recursion depth must equal the reference (memoised resolver, explicit beats default, frozen after first resolution, cycle = error).",
+         "Duplicate definitions of one slot are unspecified by the statement and not generated; error texts are not compared.",
+         "DESIGN.md 3/C10"),
  "C17": ("exploration",
          "exhaustive enumeration of ALL byte strings up to length 7 (quick) / 9 (thorough) over the 9-symbol alphabet of significant bytes, and of all rendered argument lists (<=3 arguments, 12-entry pool, 3 quoting forms, 4 separators)",
          "Totality is checked on every string; strings without quote/backslash/heredoc against a plain-word reference (per-line fields byte-for-byte, eof flags, exact stop at the newline); strings whose backslashes precede a letter or a continuation newline against the argument-count reference; every rendered list must split back to the original list and leave the next command for the next call; InjectArgs mapping is checked on every list.",
